@@ -46,8 +46,19 @@ def build(repo, tier, seed):
             ev = lambda t: m.eval(t, model_completion=True)
             return {"groups" + tag: [None if (nm not in "CD" and z3.is_true(ev(z3.Bool(nm + "none" + tag)))) else ev(z3.Int(nm + tag)).as_long() for nm in "ABCDEF"]}
         return w
+    def mk_obis(e, st, g):
+        """an Obis object as its own __init__ builds it (so every field the class derives from the tuple exists and has the derived value); the plain record when
+        __init__ is outside the supported subset"""
+        ref = st.new_obj(O + "Obis", {}); saved = dict(st.locals)
+        try:
+            outs = e.call(O + "Obis.__init__", st, [ref, g], Ctx(e, "han.obis", O + "Obis", O + "Obis.__init__"), None)
+            if len(outs) == 1 and outs[0][0] is st and not isinstance(outs[0][1], Raised) and "_groups" in st.heap[ref.oid][1]:
+                st.locals = saved; return ref
+        except (Unsupported, AttributeError, TypeError):
+            pass
+        st.locals = saved; st.heap[ref.oid] = (O + "Obis", {"_groups": g}); return ref
     def init_self(e):
-        st = State(); g, cons = groups_state(); st.pc += cons; yield st, [st.new_obj(O + "Obis", {"_groups": g})]
+        st = State(); g, cons = groups_state(); st.pc += cons; yield st, [mk_obis(e, st, g)]
     g0, _ = groups_state()
     # ---- to_reduced_str
     o = eng.verify(O + "Obis.to_reduced_str", Contract(init_self, lambda st, args, res, old, e: [("result == [A-][B:]C.D[.E][*F] with optional groups written iff present and non-zero", to_str(res) == reduced_str_spec(g0))]))
@@ -142,9 +153,9 @@ def build(repo, tier, seed):
     other_s = z3.String("other")
     def init_eq(e):
         for shape in ("Obis", "str"):
-            st = State(); g, cons = groups_state(); st.pc += cons; self_ = st.new_obj(O + "Obis", {"_groups": g})
+            st = State(); g, cons = groups_state(); st.pc += cons; self_ = mk_obis(e, st, g)
             if shape == "Obis":
-                h, cons2 = groups_state("2"); st.pc += cons2; yield st, [self_, st.new_obj(O + "Obis", {"_groups": h})], shape
+                h, cons2 = groups_state("2"); st.pc += cons2; yield st, [self_, mk_obis(e, st, h)], shape
             else: yield st, [self_, SStr(other_s)], shape
     def post_eq(st, args, res, old, e):
         if isinstance(args[1], Ref):
@@ -186,3 +197,8 @@ def build(repo, tier, seed):
     b = run.rt_call("C20", "parse_roundtrip", {"seed": seed, "rand": 2000 if tier == "quick" else 40000})
     r.bounded.append(b if "name" in b else {"name": "parse_roundtrip", "error": b.get("error", b)})
     return r
+
+def fallback(repo, tier, seed):
+    from pyvc import run
+    b = run.rt_call("C20", "bounded_search", {"seed": seed})
+    return [b if "name" in b else {"name": "bounded_search", "error": b.get("error", b)}]
